@@ -222,6 +222,48 @@ def run(chk, prog):
         chk.finding("SID", rv.key, "key-mismatch", "", "%s:%s" % (rv.file, rv.line),
                     "reverse UDP listener uses different keys for session lookup, registration and cleanup")
 
+    # ---------------------------------------------------------------- SES: a listener that registers a UDP session in its session map also
+    # registers, on every path to the hand-over of the context, a context callback whose on_error AND on_finish remove that entry again;
+    # otherwise a session that ends by idle timeout / error / denial leaves a dead entry that swallows every later datagram of the flow
+    removers = set()
+    for im in prog.items["redproxy_rs"]["impls"]:
+        if not im.get("trait", "").endswith("context::ContextCallback"):
+            continue
+        rem = {}
+        for it in im["items"]:
+            g = prog.by_crate["redproxy_rs"].get(it["path"])
+            if g is None:
+                continue
+            body = prog.body_of(g)
+            reach = prog.reachable_fns([body.key])
+            rem[it["name"]] = any(re.search(r"CHashMap::<[^>]*>::remove$", x.name or x.path or "") for rk in reach if rk in prog.fns for x in prog.fns[rk].calls)
+        if rem.get("on_error") and rem.get("on_finish"):
+            removers.add(prog.types["redproxy_rs"][im["self_ty"]]["s"])
+    nses = 0
+    for f in prog.fns.values():
+        if f.crate != "redproxy_rs" or not f.file.startswith("src/listeners/"):
+            continue
+        ins = [c for c in f.calls if re.search(r"CHashMap::<[^>]*>::insert$", c.name or c.path or "")]
+        enq = [c for c in f.calls if re.search(r"context::ContextRefOps::enqueue$", c.path or "")]
+        if not ins or not enq:
+            continue
+        nses += 1
+        setcb = []
+        for c in f.calls:
+            if re.search(r"context::Context::set_callback$", c.name or "") and len(c.args) > 1:
+                tys = " ".join(f.ty(t)["s"] for t in c.targs) + " " + str(f.trace(op_base(c.args[1]))) + " " + (f.local_ty_s(op_base(c.args[1])) if op_base(c.args[1]) is not None else "")
+                if any(r in tys for r in removers):
+                    setcb.append(c.bb)
+        ok = bool(setcb) and all(must_pass(f, [i.bb], setcb, [e.bb]) or must_pass(f, [0], setcb, [i.bb]) for i in ins for e in enq if e.bb in f.reach_from([i.bb]))
+        chk.instance("SES", "%s:%s" % (f.file, f.line), "%s: every registered session gets a callback that unregisters it on error and on finish" % f.path, ok,
+                     "callback types that unregister in both on_error and on_finish: %s" % sorted(removers))
+        if not ok:
+            chk.finding("SES", f.key, "session-never-unregistered", "", "%s:%s" % (f.file, f.line),
+                        "%s inserts a session into the listener's session map but can hand the context over without a callback that removes the entry "
+                        "on error and on finish: after the session ends (idle timeout, error, denial) every later datagram of that flow is sent to "
+                        "the dead session and dropped" % f.path)
+    chk.floor("SES", nses, 2, "listener functions that register UDP sessions")
+
     # ---------------------------------------------------------------- FRAG: a datagram larger than one QUIC packet is cut into exactly the
     # announced number of pieces, each within the packet budget (otherwise the peer never completes it and the datagram is lost)
     from . import anchors
